@@ -565,10 +565,12 @@ class ConfigGen:
         n = nrules if nrules is not None else self.rng.choice([0, 1, 1, 2, 2, 3, 4])
         rules = [self.rule() for _ in range(n)]
         if self.rng.random() < 0.3:
-            # a bare item as a direct child of the configurator (given by name or as a variable); rule ids R<n> / VAR... sort
-            # before lower-case item names, the upper-case / digit names sort between and before them
-            nm = self.rng.choice(self.items + ["Base", "S1", "m", "zz"])
-            rules.insert(self.rng.randrange(len(rules) + 1), {"k": "str", "id": nm} if self.rng.random() < 0.7 else {"k": "var", "id": nm, "b": [0, 1]})
+            # bare items as direct children of the configurator (given by name or as a variable); rule ids R<n> / VAR... sort
+            # before lower-case item names, upper-case / digit names sort between and before them; decimal names of
+            # different lengths ("9", "10", "100") sort as text, next to names that start with a digit ("1a", "2")
+            pool = self.items + ["Base", "S1", "m", "zz", "9", "10", "1a", "100", "2"]
+            for nm in self.rng.sample(pool, self.rng.choice([1, 1, 2, 3])):
+                rules.insert(self.rng.randrange(len(rules) + 1), {"k": "str", "id": nm} if self.rng.random() < 0.7 else {"k": "var", "id": nm, "b": [0, 1]})
         return {"k": "Stingy", "ch": rules, "id": (self.rng.choice(["cfg", None]) if cid == "auto" else cid)}
 
 def full_dump(p):
